@@ -1,3 +1,83 @@
-(* C15 — shares the multipart model and its wire interface with C01. *)
-From Baize Require Import C01.IO.
-Definition run_line := C01.IO.run_line.
+(* C15 — wire interface.  Both operations run the decoder with the repaired DATA state
+   ([data_step]).
+     ["form", b, u, max_parts, [max_mem]|[], chunks, wsgi_max_parts, wsgi_max_mem, asgi_max_parts, asgi_max_mem]
+         -> the outcomes of parse_stream and parse_async_stream with the given limits and of
+            Request.form on WSGI / ASGI with the limits those pass on (same format as C01's "form")
+     ["stream", b, u, max_parts, [max_mem]|[], chunks]     a chunk is a list of pieces, a piece is a
+            byte string or a run [byte, count]
+         -> the decoder driven directly: per chunk (and for the end of input) its events, len(buffer),
+            state; the helper: per completely processed chunk len(buffer), state, bytes handed to the
+            file sink so far; the outcome.  Byte strings are printed run-length encoded. *)
+From Coq Require Import List NArith ZArith Bool.
+From Baize Require Import Lib.Wire Lib.Order C01.Model C01.IO C15.Model.
+Import ListNotations.
+
+(* run-length encoding of a byte string *)
+Fixpoint rle_aux (s : bytes) (cur : N) (n : N) : list (N * N) :=
+  match s with
+  | [] => [(cur, n)]
+  | c :: r => if N.eqb c cur then rle_aux r cur (N.succ n) else (cur, n) :: rle_aux r c 1%N
+  end.
+Definition rle (s : bytes) : list (N * N) := match s with [] => [] | c :: r => rle_aux r c 1%N end.
+Definition show_rle (s : bytes) : sx := Lst (map (fun p => Lst [of_N (fst p); of_N (snd p)]) (rle s)).
+
+Definition rd_piece (x : sx) : bytes :=
+  match x with
+  | Str s => s
+  | Lst [Num c; Num n] => repeat (Z.to_N c) (Z.to_nat n)
+  | _ => []
+  end.
+Definition rd_chunk (x : sx) : bytes := concat (map rd_piece (sx_l x)).
+
+Definition show_event_rle (e : event) : sx :=
+  match e with
+  | EPreamble d => Lst [tag (lit "preamble"); show_rle d]
+  | EData d m => Lst [tag (lit "data"); show_rle d; of_bool m]
+  | EEpilogue d => Lst [tag (lit "epilogue"); show_rle d]
+  | _ => show_event e
+  end.
+
+Definition show_item_rle (i : item) : sx :=
+  match i with
+  | IText n t => Lst [tag (lit "text"); show_name n; show_rle t]
+  | IFile n fn hs c => Lst [tag (lit "file"); show_name n; Str fn; show_hdrs hs; show_rle c]
+  end.
+
+Definition show_outcome_rle (o : houtcome) : sx :=
+  match o with
+  | HItems l => Lst (tag (lit "items") :: map show_item_rle l)
+  | H413 => Lst [tag (lit "413")]
+  | H400 => Lst [tag (lit "400")]
+  end.
+
+Definition show_tick (t : tick) : sx := Lst [of_nat (t_buf t); show_state (t_state t); of_nat (t_sunk t)].
+
+Definition run_case (c : list sx) : list sx :=
+  match c with
+  | Str op :: rest =>
+      if bytes_eqb op (lit "form") then
+        match rest with
+        | [Str b; Num u; Num mp; mm; chunks; Num smp; smm; Num amp; amm] =>
+            let run mp mm := show_outcome (parse_stream_g data_step b (negb (Z.eqb u 0)) (Z.to_nat mp) (rd_limit mm)
+                                                          (rd_chunks chunks)) in
+            [run mp mm; run mp mm; run smp smm; run amp amm]
+        | _ => [tag (lit "badcase")]
+        end
+      else if bytes_eqb op (lit "stream") then
+        match rest with
+        | Str b :: Num u :: Num mp :: mm :: chunks :: _ =>        (* a trailing filler item is ignored *)
+            let u8 := negb (Z.eqb u 0) in
+            let cs := map rd_chunk (sx_l chunks) in
+            let tr := run_chunks_g data_step b u8 new_decoder cs in
+            let '(ticks, o) := stream_trace data_step b u8 (Z.to_nat mp) (rd_limit mm) new_decoder h_init cs in
+            [Lst (map (fun p => Lst [Lst (map show_event_rle (fst p)); of_nat (length (d_buf (snd p)));
+                                     show_state (d_state (snd p))]) tr);
+             Lst (map show_tick ticks); show_outcome_rle o;          (* parse_stream *)
+             Lst (map show_tick ticks); show_outcome_rle o]          (* parse_async_stream: the same model *)
+        | _ => [tag (lit "badcase")]
+        end
+      else [tag (lit "badcase")]
+  | _ => [tag (lit "badcase")]
+  end.
+
+Definition run_line (l : list N) : list N := print_line (run_case (parse_line l)).
